@@ -78,8 +78,12 @@ class StarFinderBase(metaclass=abc.ABCMeta):
             else:
                 footprint = kernel.mask.astype(bool)
         else:
-            # define a local circular footprint for the peak finder
-            idx = np.arange(-min_separation, min_separation + 1)
+            # define a local circular footprint for the peak finder;
+            # the offsets must be integers centered on zero (a
+            # non-integer min_separation would otherwise give an
+            # even-sized, off-center footprint)
+            nsep = int(np.floor(min_separation))
+            idx = np.arange(-nsep, nsep + 1)
             xx, yy = np.meshgrid(idx, idx)
             footprint = np.array((xx**2 + yy**2) <= min_separation**2,
                                  dtype=int)
